@@ -16,6 +16,7 @@ from mc.engine import ok, bad, unspecified
 from mc.common import call, Raised, DimArray, py, same_scalar, same_list
 
 ID = "C09"
+OEO = True      # a third of the cases get a second pass on the same array after an in-place edit (engine._oeo)
 VARIANT_SWEEP = True      # thorough tier: every case on every history variant of its array (see mc/domains.py VSHIFT)
 TITLE = "cumulative / diff / arg-extremum bookkeeping"
 RULE = ("product of (numeric arrays 1-4D, operated axis of size 1-5 at every position, numeric sorted / unsorted and str labels, "
